@@ -2,10 +2,9 @@
  * on the real functions of /repo/lib/date-core.c (ASPECT_ADD / ASPECT_DIFF / ASPECT_CMP parts). */
 #ifndef VERIF_DATE_CORE_ARITH_H
 #define VERIF_DATE_CORE_ARITH_H
+#include "date-core.public.h"
 
 /* bound on day/week counts: keeps every intermediate inside int and the result inside 1..911280 */
-#define N_OK(n) ((n) >= -1000000 && (n) <= 1000000)
-#define IN_RANGE(x) ((x) >= 1 && (x) <= S_MAX_DAISY)
 
 /* ------------------------------------------------------------ C03: day carries (loop contracts in obligations/11_*.py) */
 /* year-wise carry: (y, d) with any d  ->  the valid yd denoting day J(y)+d */
@@ -67,7 +66,6 @@ static dt_ywd_t __ywd_fixup_w(unsigned int y, signed int w, dt_dow_t d, int hang
 CONTRACT(PRE___ywd_fixup_w(y, w, d, hang), POST___ywd_fixup_w(RV, y, w, d, hang));
 
 /* absolute day number of an ISO week date by its week-1 Monday (lemma L_ywd: equals A_YWD) */
-#define N_YWD(x) (S_ISOMON1((int)(x).y) + 7 * ((int)(x).c - 1) + ((int)(x).w - 1))
 #define PRE___ywd_add_w(d, n) (V_YWD(d) && (n) >= -140000 && (n) <= 140000 && IN_RANGE(N_YWD(d) + 7 * (n)))
 #define POST___ywd_add_w(ret, d, n) (V_YWD(ret) && N_YWD(ret) == N_YWD(d) + 7 * (n))
 static dt_ywd_t __ywd_add_w(dt_ywd_t d, int n)
@@ -77,37 +75,5 @@ CONTRACT(PRE___ywd_add_w(d, n), POST___ywd_add_w(RV, d, n));
 static dt_ywd_t __ywd_add_d(dt_ywd_t d, int n)
 CONTRACT(PRE___ywd_add_d(d, n), POST___ywd_add_d(RV, d, n));
 
-
-/* ------------------------------------------------------------ dispatchers: dt_dadd_d / dt_dadd_w / dt_dadd (DURD, DURWK) */
-/* day number in the form natural to each representation (all equal to A_d by spec lemmas L_ywd, L_monof) */
-static inline int AN_d(struct dt_d_s d)
-{
-	switch (d.typ) {
-	case DT_YMD: return A_YMD(d.ymd);
-	case DT_YD: return A_YD(d.yd);
-	case DT_YWD: return N_YWD(d.ywd);
-	case DT_DAISY: return (int)d.daisy;
-	case DT_LDN: return (int)d.ldn - S_LDN_BASE;
-	case DT_MDN: return (int)d.mdn - S_MDN_BASE;
-	default: return 0;
-	}
-}
-#define ADD_T(t) ((t) == DT_YMD || (t) == DT_YD || (t) == DT_YWD || (t) == DT_DAISY || (t) == DT_LDN || (t) == DT_MDN)
-#define SAME_META(r, d) ((r).typ == (d).typ && (r).param == (d).param && (r).neg == (d).neg && (r).fix == (d).fix && (r).xxx == (d).xxx)
-#define PRE_dt_dadd_d(d, n) (V_d(d) && ADD_T((d).typ) && N_OK(n) && IN_RANGE(AN_d(d) + (n)))
-#define POST_dt_dadd_d(ret, d, n) (SAME_META(ret, d) && V_d(ret) && AN_d(ret) == AN_d(d) + (n))
-struct dt_d_s dt_dadd_d(struct dt_d_s d, int n)
-CONTRACT(PRE_dt_dadd_d(d, n), POST_dt_dadd_d(RV, d, n));
-#define PRE_dt_dadd_w(d, n) (V_d(d) && ADD_T((d).typ) && (n) >= -140000 && (n) <= 140000 && IN_RANGE(AN_d(d) + 7 * (n)))
-#define POST_dt_dadd_w(ret, d, n) (SAME_META(ret, d) && V_d(ret) && AN_d(ret) == AN_d(d) + 7 * (n))
-struct dt_d_s dt_dadd_w(struct dt_d_s d, int n)
-CONTRACT(PRE_dt_dadd_w(d, n), POST_dt_dadd_w(RV, d, n));
-/* dt_dadd with a day or week duration */
-#define PRE_dt_dadd_dw(d, dur) (((dur).durtyp == DT_DURD && PRE_dt_dadd_d(d, (dur).dv)) || ((dur).durtyp == DT_DURWK && PRE_dt_dadd_w(d, (dur).dv)))
-#define POST_dt_dadd_dw(ret, d, dur) (SAME_META(ret, d) && V_d(ret) && AN_d(ret) == AN_d(d) + ((dur).durtyp == DT_DURWK ? 7 : 1) * (dur).dv)
-struct dt_d_s dt_dadd(struct dt_d_s d, struct dt_ddur_s dur)
-CONTRACT(PRE_dt_dadd_dw(d, dur), POST_dt_dadd_dw(RV, d, dur));
-#define PRE_dt_dadd(d, dur) PRE_dt_dadd_dw(d, dur)
-#define POST_dt_dadd(ret, d, dur) POST_dt_dadd_dw(ret, d, dur)
 
 #endif
